@@ -2175,8 +2175,10 @@ static WBXMLError wbxml_encode_value_element_buffer(WBXMLEncoder *encoder, WB_UT
             if (WBXML_STRCASECMP(buffer, "application/vnd.syncml-devinf+xml") == 0) {
                 the_buffer = (WB_UTINY*) "application/vnd.syncml-devinf+wbxml";
             }
-            /* Change text in <Type> from "application/vnd.syncml.dmtnds+xml" to "application/vnd.syncml.dmtnds+wbxml" */
-            if (WBXML_STRCASECMP(buffer, "application/vnd.syncml.dmtnds+xml") == 0) {
+            /* Change text in <Type> from "application/vnd.syncml.dmtnds+xml" to "application/vnd.syncml.dmtnds+wbxml"
+             * (SyncML 1.2 only, as the XML generator undoes it for SyncML 1.2 only) */
+            if ((encoder->lang->langID == WBXML_LANG_SYNCML_SYNCML12) &&
+                (WBXML_STRCASECMP(buffer, "application/vnd.syncml.dmtnds+xml") == 0)) {
                 the_buffer = (WB_UTINY*) "application/vnd.syncml.dmtnds+wbxml";
             }
         }
